@@ -23,6 +23,18 @@ enum MemberKeyInfo {
 }
 
 impl Compiler {
+    /// The callee expression with non-null assertions, type assertions and parentheses removed
+    fn callee_without_wrappers(mut expr: &Expression) -> &Expression {
+        loop {
+            expr = match expr {
+                Expression::NonNull(nn) => nn.expression.as_ref(),
+                Expression::TypeAssertion(ta) => ta.expression.as_ref(),
+                Expression::Parenthesized(inner, _) => inner.as_ref(),
+                other => return other,
+            };
+        }
+    }
+
     /// Compile an expression, placing result in the specified destination register
     pub fn compile_expression(&mut self, expr: &Expression, dst: Register) -> Result<(), JsError> {
         self.builder.set_span(expr.span());
@@ -1800,7 +1812,9 @@ impl Compiler {
         // Check for method call pattern: obj.method(args) or obj[expr](args)
         // IMPORTANT: Callee must be evaluated BEFORE arguments per JS spec.
         // If accessing the method throws, arguments should not be evaluated.
-        if let Expression::Member(member) = call.callee.as_ref() {
+        // `obj.method!(args)`, `(obj.method as T)(args)` and `(obj.method)(args)` are
+        // the same call: type wrappers and parentheses do not detach the receiver.
+        if let Expression::Member(member) = Self::callee_without_wrappers(call.callee.as_ref()) {
             match &member.property {
                 MemberProperty::Identifier(method_name) => {
                     // Compile object first (may throw if intermediate access is undefined)
